@@ -343,6 +343,7 @@ fn run_c08(t: &mut Tape, _tier: Tier) -> RunOut {
             mix.exec.spurious_one_in = 12;
             mix.exec.cancel_one_in = 30;
             mix.body_fault_one_in = 10;
+            mix.provider_panics_unready = true;
             mix.node.odd_scopes = true;
             mix.req.big_body_one_in = 30;
             mix.req.boundary_form_one_in = 12;
@@ -1370,7 +1371,7 @@ fn c19_world(t: &mut Tape, forced: Option<(usize, bool)>) -> RunOut {
         let header = m.auth.carrier == Carrier::Header;
         // which duplicated input; `accept` = the valid one sits where the documented rule selects
         let kinds: &[&str] = if header {
-            &["authorization", "hdr-param:Credential", "hdr-param:Signature", "hdr-param:SignedHeaders", "x-amz-date", "date-beside-x-amz-date", "x-amz-date-beside-date", "token", "both-carriers", "query-token-beside-header-carrier"]
+            &["hdr-lookalike:Credential", "hdr-lookalike:Signature", "hdr-lookalike:SignedHeaders", "authorization", "hdr-param:Credential", "hdr-param:Signature", "hdr-param:SignedHeaders", "x-amz-date", "date-beside-x-amz-date", "x-amz-date-beside-date", "token", "both-carriers", "query-token-beside-header-carrier"]
         } else {
             &["qp:X-Amz-Credential", "qp:X-Amz-Signature", "qp:X-Amz-SignedHeaders", "qp:X-Amz-Date", "qp:X-Amz-Algorithm", "qp:X-Amz-Security-Token", "both-carriers", "qp-body:X-Amz-Date", "qp-body:X-Amz-Credential", "header-token-beside-query-carrier"]
         };
@@ -1410,9 +1411,31 @@ fn c19_world(t: &mut Tape, forced: Option<(usize, bool)>) -> RunOut {
                     bogus
                 };
                 m.quirks.dup_header_params.push((name.to_string(), bogus, before));
-                // any number of unknown parameters around them changes nothing
+                // any number of unknown parameters and empty list elements around them changes nothing
                 m.quirks.header_param_fillers = [0, 0, 3, 6, 9, 14][t.below(6)];
+                m.quirks.header_param_empties = [0, 0, 1, 2, 5][t.below(5)];
                 accept = Some(before);
+                resign = false;
+            }
+            k if k.starts_with("hdr-lookalike:") => {
+                // a parameter whose name merely resembles a real one (a no-break space or next-line
+                // byte in front of it, another letter case) is some unknown parameter: ignored,
+                // wherever it sits
+                let name = &k["hdr-lookalike:".len()..];
+                let bogus = match name {
+                    "Credential" => format!("AKIDOTHER/{}/{}/{}/aws4_request", m.auth.scope_date, m.auth.region, m.auth.service),
+                    "Signature" => "f".repeat(64),
+                    _ => "host;x-bogus".to_string(),
+                };
+                let look = match t.below(4) {
+                    0 => format!("\u{a0}{}", name),
+                    1 => format!("\u{85}{}", name),
+                    2 => name.to_lowercase(),
+                    _ => format!("{}\u{a0}", name),
+                };
+                m.quirks.dup_header_params.push((look, bogus, before));
+                m.quirks.header_param_empties = [0, 0, 1, 3][t.below(4)];
+                accept = Some(true);
                 resign = false;
             }
             "x-amz-date" => {
@@ -1548,6 +1571,12 @@ fn c19_world(t: &mut Tape, forced: Option<(usize, bool)>) -> RunOut {
             // signer signs with the duplicate in place. Exactly one selection makes this valid.
             if matches!(kind, "x-amz-date" | "date-beside-x-amz-date" | "x-amz-date-beside-date" | "token") {
                 m.auth.signed.retain(|n| !matches!(n.as_str(), "x-amz-date" | "date" | "x-amz-security-token"));
+                if kind == "date-beside-x-amz-date" && t.chance(2) {
+                    // the client signs the Date header (as an ordinary header) and not X-Amz-Date:
+                    // X-Amz-Date still is the request's date
+                    m.auth.signed.push("date".into());
+                    m.auth.signed.sort();
+                }
                 origin.auth.signed = m.auth.signed.clone();
                 sign(&origin.logical, &mut origin.auth, &origin.quirks, &acct.secret);
             }
